@@ -536,9 +536,9 @@ def find_syntactic_behaviours(
     query = '''
         SELECT sb.id, sb.frame, s.id
           FROM syntactic_behaviours AS sb
-          JOIN syntactic_behaviour_senses AS sbs
+          LEFT JOIN syntactic_behaviour_senses AS sbs
             ON sbs.syntactic_behaviour_rowid = sb.rowid
-          JOIN senses AS s
+          LEFT JOIN senses AS s
             ON s.rowid = sbs.sense_rowid
     '''
     conditions: list[str] = []
@@ -551,10 +551,12 @@ def find_syntactic_behaviours(
         params.extend(lexicon_rowids)
     if conditions:
         query += '\n WHERE ' + '\n   AND '.join(conditions)
+    query += '\n ORDER BY sb.rowid'
     rows: Iterator[tuple[str, str, str]] = conn.execute(query, params)
     for key, group in itertools.groupby(rows, lambda row: row[0:2]):
         id, frame = cast(tuple[str, str], key)
-        sense_ids = [row[2] for row in group]
+        # frames that no sense uses have a single row with a NULL sense
+        sense_ids = [row[2] for row in group if row[2] is not None]
         yield id, frame, sense_ids
 
 
